@@ -109,7 +109,7 @@ func c10FromGo(x interface{}) *c10Val {
 	return &c10Val{K: 2, S: fmt.Sprint(x)}
 }
 
-func c10Bytes(s string) string { return "(h " + coqHex([]byte(s)) + ")" }
+func c10Bytes(s string) string { return c11Name(s) }
 
 // descriptions cross as themselves when short, as a hash otherwise (both sides alike)
 func c10Text(s string) string {
